@@ -291,6 +291,9 @@ package circuitbreaker
 // transitionTo: no-op when already there; otherwise a fresh state of the requested kind, the delay taken from the
 // delay function unless it returns -1 (or there is no execution), then the specific listener and the generic one,
 // each once, with an event describing previous kind -> new kind and carrying the previous state's metrics.
+// the delay an opening breaker gets: the delay function's value for the execution that caused the opening, else the fixed delay
+//@ macro openDelayFor(cb, exec) = ite(exec != nil && cb.DelayFunc != nil && ret(cb.DelayFunc, 1) != -1, ret(cb.DelayFunc, 1), cb.Delay)
+//@ macro delayFuncAsked(cb, exec) = exec != nil && cb.DelayFunc != nil ==> ncalls(cb.DelayFunc) == 1 && arg(cb.DelayFunc, 1, 0) == exec
 //@ func (*circuitBreaker).transitionTo
 //@   requires [C14.user_callback_gets_copy] userCopy(exec)
 //@   requires held(mutexof(cb, "mtx"))
@@ -305,6 +308,7 @@ package circuitbreaker
 //@   ensures [C03.transition.kind] moved ==> kindOf(cb.state) == newState && stateWF(cb)
 //@   ensures [C03.transition.fresh] moved ==> fresh(payload(cb.state))
 //@   ensures [C03.transition.open] moved && newState == OpenState ==> asref(cb.state, *openState).stats == prev && asref(cb.state, *openState).delay == ite(useFunc, computed, cb.Delay) && asref(cb.state, *openState).startTime == ret(cb.clock.CurrentUnixNano, 1)
+//@   ensures [C03.transition.delayfunc_asked] moved && newState == OpenState ==> delayFuncAsked(cb, exec)
 //@   ensures [C03.transition.halfopen+C04.halfopen.capacity] moved && newState == HalfOpenState ==> asref(cb.state, *halfOpenState).permittedExecutions == trialCapacity(cb) && asref(asref(cb.state, *halfOpenState).stats, *countingStats).m == 0
 //@   ensures [C03.transition.closed] moved && newState == ClosedState ==> (cb.failureThresholdingPeriod == 0 ==> asref(asref(cb.state, *closedState).stats, *countingStats).m == 0)
 //@   ensures [C16.breaker.specific_listener] moved && listener != nil ==> ncalls(listener) == 1 && arg(listener, 1, 0) == k0 && arg(listener, 1, 1) == newState
@@ -323,6 +327,7 @@ package circuitbreaker
 //@   let cfg := s.breaker
 //@   let met := n >= cfg.failureExecutionThreshold && ((cfg.failureRateThreshold != 0 && ret(s.stats.failureRate, 1) >= cfg.failureRateThreshold) || (cfg.failureRateThreshold == 0 && ret(s.stats.failureCount, 1) >= cfg.failureThreshold))
 //@   ensures [C03.closed.opens] met ==> typeis(s.breaker.state, *openState) && asref(s.breaker.state, *openState).stats == asiface(s)
+//@   ensures [C03.closed.open_delay] met ==> asref(s.breaker.state, *openState).delay == openDelayFor(s.breaker, exec) && delayFuncAsked(s.breaker, exec)
 //@   ensures [C03.closed.stays] !met ==> s.breaker.state == old(s.breaker.state)
 //@   ensures [C03.closed.check_wf] stateWF(s.breaker)
 //@   ensures [C16.breaker.open_event] (met && s.breaker.openListener != nil ==> ncalls(s.breaker.openListener) == 1) && (!met ==> ncalls(s.breaker.openListener) == 0 && ncalls(s.breaker.stateChangedListener) == 0)
@@ -354,6 +359,7 @@ package circuitbreaker
 //@   let fx := hoFailureSide(s.breaker, ret(s.stats.successCount, 1), ret(s.stats.failureCount, 1), ret(s.stats.executionCount, 1), ret(s.stats.successRate, 1), ret(s.stats.failureRate, 1))
 //@   ensures [C03.halfopen.closes] sx ==> typeis(s.breaker.state, *closedState)
 //@   ensures [C03.halfopen.opens] !sx && fx ==> typeis(s.breaker.state, *openState)
+//@   ensures [C03.halfopen.open_delay] !sx && fx ==> asref(s.breaker.state, *openState).delay == openDelayFor(s.breaker, exec) && delayFuncAsked(s.breaker, exec)
 //@   ensures [C03.halfopen.undecided] !sx && !fx ==> s.breaker.state == old(s.breaker.state)
 //@   ensures [C03.halfopen.check_wf] stateWF(s.breaker)
 //@   ensures [C04.halfopen.permit_back] s.permittedExecutions == old(s.permittedExecutions) + 1
@@ -446,6 +452,7 @@ package circuitbreaker
 //@   oldlet k0 := kindOf(cb.state)
 //@   ensures [C04.record.permit_back_on_failure] k0 == HalfOpenState ==> hs.permittedExecutions == old(hs.permittedExecutions) + 1
 //@   ensures [C03.record.open_ignores_failure] k0 == OpenState ==> cb.state == old(cb.state)
+//@   ensures [C03.record.open_delay] k0 != OpenState && typeis(cb.state, *openState) ==> asref(cb.state, *openState).delay == openDelayFor(cb, exec) && delayFuncAsked(cb, exec)
 //@   ensures [C03.record.wf_failure] stateWF(cb)
 //@   havoc
 //@   modifies cb.state, alloftype(halfOpenState), alloftype(countingStats), alloftype(timedStats), alloftype(stat), alloftype(bitset.BitSet), calls(cb.openListener), calls(cb.closeListener), calls(cb.stateChangedListener), calls(cb.DelayFunc), methodcalls
@@ -500,10 +507,11 @@ package circuitbreaker
 //@   requires e != nil && e.BaseExecutor != nil && e.circuitBreaker != nil && exec != nil && !held(mutexof(e.circuitBreaker, "mtx"))
 //@   premise breakerListenersDistinct(e.circuitBreaker)
 //@   oldlet recf := 0
-//@   oncall (*circuitBreaker).recordFailure: recf := recf + 1
+//@   oncall (*circuitBreaker).recordFailure: recf := recf + 1; fexec := callarg_1
 //@   ensures [C04.executor.records_failure] recf == 1
 //@   ensures [C04.executor.failure_permit_back] old(kindOf(e.state)) == HalfOpenState ==> old(asref(e.state, *halfOpenState)).permittedExecutions == old(asref(e.state, *halfOpenState).permittedExecutions) + 1
 //@   ensures [C04.executor.failure_identity] result_0 == result
+//@   ensures [C03.executor.open_delay_from_failed_execution] old(kindOf(e.state)) != OpenState && typeis(e.state, *openState) ==> asref(e.state, *openState).delay == openDelayFor(e.circuitBreaker, fexec) && delayFuncAsked(e.circuitBreaker, fexec) && fexec != nil && userCopy(fexec)
 //@   havoc
 //@   modifies e.circuitBreaker.state, alloftype(halfOpenState), alloftype(countingStats), alloftype(timedStats), alloftype(stat), alloftype(bitset.BitSet), calls(e.openListener), calls(e.closeListener), calls(e.stateChangedListener), calls(e.DelayFunc), calls(e.onSuccess), calls(e.onFailure), methodcalls
 
